@@ -148,15 +148,18 @@ pub fn run(a: &Args) -> i32 {
             let keys: Arc<Mutex<Vec<u64>>> = Arc::new(Mutex::new(bodies.iter().map(|b| b.0).collect()));
             if kind == "client" {
                 let c = Client::connect(addr).unwrap();
-                let hs: Vec<_> = bodies.into_iter().map(|(key, body)| { let c = c.clone(); std::thread::spawn(move || {
-                    let _ = c.call_with_formats_and_timeout(format!("/k{key}"), 1, Some(&body), 0, Duration::from_millis(400));
+                // every third writer sends a notify (its own id, no response expected) instead of a call
+                let hs: Vec<_> = bodies.into_iter().enumerate().map(|(wi, (key, body))| { let c = c.clone(); std::thread::spawn(move || {
+                    if wi % 3 == 2 { let _ = c.notify_with_formats(format!("/k{key}"), 1, Some(&body), 0); }
+                    else { let _ = c.call_with_formats_and_timeout(format!("/k{key}"), 1, Some(&body), 0, Duration::from_millis(400)); }
                 }) }).collect();
                 for h in hs { let _ = h.join(); }
                 drop(c);
             } else {
                 let c = rt.block_on(AsyncClient::connect(addr)).unwrap();
-                let hs: Vec<_> = bodies.into_iter().map(|(key, body)| { let c = c.clone(); rt.spawn(async move {
-                    let _ = c.call_with_formats_and_timeout(format!("/k{key}"), 1, Some(&body), 0, Duration::from_millis(400)).await;
+                let hs: Vec<_> = bodies.into_iter().enumerate().map(|(wi, (key, body))| { let c = c.clone(); rt.spawn(async move {
+                    if wi % 3 == 2 { let _ = c.notify_with_formats(format!("/k{key}"), 1, Some(&body), 0).await; }
+                    else { let _ = c.call_with_formats_and_timeout(format!("/k{key}"), 1, Some(&body), 0, Duration::from_millis(400)).await; }
                 }) }).collect();
                 for h in hs { let _ = rt.block_on(h); }
                 drop(c);
@@ -186,7 +189,8 @@ pub fn run(a: &Args) -> i32 {
         });
         let c = rt.block_on(WebSocketClient::connect(&format!("ws://{addr}"))).unwrap();
         let hs: Vec<_> = (0..writers).map(|w| { let c = c.clone(); let key = 9000 + (round * 100 + w) as u64; let body = keyed(SIZES[(w + round) % SIZES.len()], key); rt.spawn(async move {
-            let _ = c.call_with_formats_and_timeout(format!("/k{key}"), 1, Some(&body), 0, Duration::from_millis(400)).await;
+            if w % 3 == 2 { let _ = c.notify_with_formats(format!("/k{key}"), 1, Some(&body), 0).await; }
+            else { let _ = c.call_with_formats_and_timeout(format!("/k{key}"), 1, Some(&body), 0, Duration::from_millis(400)).await; }
         }) }).collect();
         for h in hs { let _ = rt.block_on(h); }
         drop(c);
